@@ -17,5 +17,10 @@ one() {
   git -C /repo worktree remove --force "$WT"
 }
 export -f one
-declare -A CH=( [N1]="C01 C02 C15" [N2]="C05 C14 C03" [N3]="C06 C07 C08" [N4]="C10 C11 C19" [N5]="C09 C17" [N6]="C16 C20" [N7]="C15 C14 C09" [N8]="C13 C19 C07" [own]="C05 C14 C04" [M1]="C01 C02 C15" [M2]="C05 C14 C04" [M3]="C06 C07 C08 C10" [M4]="C19 C13 C11" [M5]="C11 C10 C19 C09" [M6]="C16 C12" [M7]="C09 C15 C02 C14" [M8]="C10 C11 C16 C05" )
+# FOCUS=1 (default): per region the two checks whose contracts changed most recently; FOCUS=0: the full lists of tools/all_neutral.sh
+if [ "${FOCUS:-1}" = "1" ]; then
+declare -A CH=( [N1]="C01 C02" [N2]="C05 C14" [N3]="C08 C07" [N4]="C10 C11" [N5]="C09" [N6]="C16" [N7]="C15 C09" [N8]="C13 C19" [own]="C05 C14" [M1]="C01 C02" [M2]="C05 C14" [M3]="C08 C07" [M4]="C19 C13" [M5]="C11 C10" [M6]="C16" [M7]="C15 C09" [M8]="C10 C05" )
+else
+declare -A CH=( [N1]="C01 C02 C12 C15" [N2]="C03 C04 C05 C14" [N3]="C06 C07 C08" [N4]="C10 C11 C19" [N5]="C17 C09 C04 C03" [N6]="C16 C20" [N7]="C15 C12 C14 C01 C09 C04" [N8]="C13 C19 C08 C06 C07 C12" [own]="C03 C04 C05 C14" [M1]="C01 C02 C12 C15" [M2]="C03 C04 C05 C14" [M3]="C06 C07 C08 C10" [M4]="C19 C13 C08 C11" [M5]="C11 C10 C19 C09" [M6]="C16 C20 C12 C01" [M7]="C09 C15 C05 C12 C02 C14" [M8]="C17 C10 C11 C16 C05" )
+fi
 for k in "${!CH[@]}"; do for f in neutral/$k/*.diff; do echo "$f ${CH[$k]}"; done; done | xargs -P "$LANES" -L1 bash -c 'one "$@"' _
